@@ -92,8 +92,7 @@ def badverb (c : Nat) : Bytes := bang ++ [c, 0x28, 0x29]
 
 /-- `fmt.Fprintf`'s output for a format and string / `[]byte` operands -/
 def goFmt : Bytes → List Bytes → Bytes
-  | [], [] => []
-  | [], _ :: _ => extra
+  | [], as => if as.isEmpty then [] else extra
   | c :: rest, as =>
     if c = 0x25 then
       match rest with
